@@ -94,7 +94,9 @@ def extract(config="ws", repo=REPO, verbose=False):
     cfg = CONFIGS[config]
     os.makedirs(CACHE, exist_ok=True)
     ensure_driver()
-    th = tree_hash(repo)
+    with open(os.path.join(DRIVER_DIR, "src", "main.rs"), "rb") as fh:
+        drv = hashlib.sha256(fh.read()).hexdigest()[:8]
+    th = tree_hash(repo) + "-" + drv
     out = os.path.join(CACHE, "facts", th, config)
     done = os.path.join(out, ".done")
     if os.path.exists(done):
